@@ -95,6 +95,19 @@ def gen_cases(seed, n):
                 ps.append({"t": "values", "vars": ["b"], "rows": [[C(x)] for x in sorted({t[2] for t in merged if G.kind_of(t[2]) == "iri"})[:3]] or [[C(G.IRIS[0])]]})
             q = {"distinct": False, "star": True, "proj": [], "from": srcs + ([G.GRAPHS[2]] if (i // 15) % 2 else []), "fromnamed": [], "group": [], "order": [], "limit": -1,
                  "p": {"t": "join", "ps": ps}}
+        force_junk = False
+        if i % 15 == 10:
+            # delete history + joins with a variable predicate whose object / subject is bound by the join: every index permutation
+            # is read by some pattern, an index that a delete left stale resurrects quads (own random stream: the other cases keep theirs)
+            r2 = random.Random(seed * 1000003 + i)
+            V, C = G.V, G.C
+            shape = [[[V("a"), V("c"), V("b")], [V("b"), V("d"), V("a")]],
+                     [[V("b"), V("d"), V("c")], [V("a"), V("c"), V("b")]],
+                     [[V("a"), V("c"), C(r2.choice(G.IRIS[:4]))], [V("a"), V("d"), V("b")]],
+                     [[C(r2.choice(G.IRIS[:4])), V("c"), V("b")], [V("b"), V("d"), V("a")]]][(i // 15) % 4]
+            q = {"distinct": False, "star": True, "proj": [], "from": [], "fromnamed": [], "group": [], "order": [], "limit": -1,
+                 "p": {"t": "join", "ps": [{"t": "bgp", "tps": shape[:1] if (i // 60) % 3 == 2 else shape}]}}
+            force_junk = True
         if i % 15 == 4:
             # twins: two union branches that differ in one detail deep inside (plan memo keys, caches by sub-plan shape)
             q = G.twin_query(rng, quads, G.TWIN_KINDS[(i // 15) % len(G.TWIN_KINDS)])
@@ -105,6 +118,10 @@ def gen_cases(seed, n):
             text = G.with_prefix(text)  # PREFIX prologue, IRIs as prefixed names
         # the dataset is the result of a history: some quads (sharing terms with the kept ones) are inserted and deleted again
         junk = []
+        if force_junk:
+            # quads that share subject / object with kept ones, inserted and deleted again
+            cand_all = sorted({(s_, p_, o_, "") for s_ in G.IRIS[:4] for p_ in G.P_IRI for o_ in G.IRIS[:5]} - set(quads))
+            junk = random.Random(seed * 7 + i).sample(cand_all, min(5, len(cand_all)))
         for _ in range(rng.choice([0, 2, 3, 4])):
             s_, p_, o_, g_ = rng.choice(quads)
             cand = rng.choice([(rng.choice(G.IRIS[:4]), p_, o_, g_), (s_, rng.choice(G.PREDS), o_, g_), (s_, p_, o_, rng.choice(["", G.GRAPHS[0], G.GRAPHS[1]]))])
